@@ -135,6 +135,46 @@ fn moments_check<T: Float + FromPrimitive + Send + Sync + std::fmt::Debug>(ctx: 
     }
 }
 
+/// Tail occupancy of the pooled 256x256 blocks of seeds 0..40 (2.6 million draws): the numbers of draws beyond 1, 2, 3
+/// and 4 standard deviations must lie within 6 binomial standard deviations of the standard-normal expectation
+/// (expected 166 draws beyond 4 sigma). Fixed enumerated blocks, declared non-generalising like the moment band; it
+/// exists because truncating / redrawing rare tail values leaves every other clause intact.
+fn tail_check<T: Float + FromPrimitive + Send + Sync + std::fmt::Debug>(ctx: &Ctx, ty: &str) {
+    let seeds: Vec<u64> = (0..40).collect();
+    let counts: Vec<[u64; 4]> = seeds
+        .par_iter()
+        .map(|s| {
+            let v = init_with_seed::<T>(256, 256, *s);
+            let mut c = [0u64; 4];
+            for x in v.iter().flatten() {
+                let a = x.to_f64().unwrap().abs();
+                for (k, t) in [1.0, 2.0, 3.0, 4.0].iter().enumerate() {
+                    if a > *t {
+                        c[k] += 1;
+                    }
+                }
+            }
+            c
+        })
+        .collect();
+    let n = (seeds.len() * 256 * 256) as f64;
+    let p = [0.31731050786291415, 0.04550026389635842, 0.0026997960632601866, 6.334248366623973e-5];
+    ctx.evals(1);
+    ctx.transitions(seeds.len() as u64);
+    for k in 0..4 {
+        let got: u64 = counts.iter().map(|c| c[k]).sum();
+        let (mu, sd) = (n * p[k], (n * p[k] * (1.0 - p[k])).sqrt());
+        if (got as f64 - mu).abs() > 6.0 * sd {
+            ctx.violation(Violation::new(
+                "C18:tails",
+                format!("init_with_seed::<{ty}>(256,256,s) for s in 0..40: {got} of {n} draws lie beyond {} standard deviations; a standard normal gives {mu:.1} +- {sd:.1}", k + 1),
+                json!({"ty": ty, "tails": true}),
+            ));
+        }
+    }
+    ctx.outcome("tail-occupancy band checked", 1);
+}
+
 fn run_typed<T: Float + FromPrimitive + Send + Sync + std::fmt::Debug>(ctx: &Ctx, ty: &str, grid: &[usize]) {
     let nmax = *grid.iter().max().unwrap();
     let jobs: Vec<(usize, u64)> = grid.iter().flat_map(|d| SEEDS.iter().map(move |s| (*d, *s))).collect();
@@ -147,13 +187,14 @@ fn run_typed<T: Float + FromPrimitive + Send + Sync + std::fmt::Debug>(ctx: &Ctx
     for s in SEEDS {
         moments_check::<T>(ctx, ty, s);
     }
+    tail_check::<T>(ctx, ty);
 }
 
 pub fn run(ctx: &Ctx) {
     let grid: Vec<usize> = if ctx.tier.thorough() { (0..=256).collect() } else { vec![0, 1, 2, 3, 7, 64, 255, 256] };
     ctx.rule("all (n,d) of the grid x seeds {0,1,42,2^32,u64::MAX} x {f32,f64}; a case is non-trivial when n*d>=2, distinct by the bit pattern of the returned block; states = distinct (type,n,d,seed) inputs, transitions = helper calls evaluated");
     ctx.extra("grid", json!(if ctx.tier.thorough() { "n,d in 0..=256 (full square)".to_string() } else { format!("{grid:?}^2") }));
-    ctx.assume("that the draws are *standard normal* is trusted to rand_distr (only a fixed 5-sigma moment band on 256x256 blocks is checked; not generalising)");
+    ctx.assume("that the draws are *standard normal* is trusted to rand_distr (only a fixed 5-sigma moment band on 256x256 blocks and a 6-sigma tail-occupancy band (beyond 1,2,3,4 sd) on the pooled blocks of seeds 0..40 are checked; not generalising)");
     run_typed::<f32>(ctx, "f32", &grid);
     run_typed::<f64>(ctx, "f64", &grid);
     ctx.traces(0);
@@ -164,6 +205,10 @@ pub fn check_case(ctx: &Ctx, case: &Value) {
     let d = case["d"].as_u64().unwrap_or(0) as usize;
     let seed: u64 = case["seed"].as_str().and_then(|s| s.parse().ok()).unwrap_or(0);
     let f32t = case["ty"].as_str() == Some("f32");
+    if case.get("tails").is_some() {
+        if f32t { tail_check::<f32>(ctx, "f32") } else { tail_check::<f64>(ctx, "f64") }
+        return;
+    }
     if case.get("moments").is_some() {
         if f32t { moments_check::<f32>(ctx, "f32", seed) } else { moments_check::<f64>(ctx, "f64", seed) }
         return;
